@@ -950,7 +950,9 @@ Definition cc_is_readdir_body (a : cc_aid) : bool :=
   match a with AHBody HkReaddir | AHBody HkReaddirnames => true | _ => false end.
 Definition cc_is_fname (f : cc_field) : bool := match f with FName => true | _ => false end.
 
-(* the exceptions of today's table, as pairs (action, action, access, access) *)
+(* the pairs without a common lock: Rename's write of name vs the sort of a listing (ordered by
+   happens-before, see cc_protected_hb) and — before commit cbef301 — vs the unlocked reads of the
+   error paths of mem.File *)
 Definition cc_exc_errpath (a1 : cc_aid) (x : cc_access) (a2 : cc_aid) (y : cc_access) : bool :=
   cc_is_fname (ac_field x) &&
   ((cc_is_rename a1 && ac_write x && cc_name_unlocked_reader a2 && negb (ac_own y) && negb (ac_parent y)) ||
@@ -960,12 +962,24 @@ Definition cc_exc_sort (a1 : cc_aid) (x : cc_access) (a2 : cc_aid) (y : cc_acces
   ((cc_is_rename a1 && ac_write x && cc_is_readdir_body a2 && ac_parent y) ||
    (cc_is_rename a2 && ac_write y && cc_is_readdir_body a1 && ac_parent x)).
 
-Definition cc_table_dec (ok : cc_aid -> cc_access -> cc_aid -> cc_access -> bool) : bool :=
+(* [acc]: the annotation table; [wt]: only accesses that well-typed programs can make *)
+Definition cc_table_dec (acc : cc_aid -> list cc_access) (wt : bool)
+           (ok : cc_aid -> cc_access -> cc_aid -> cc_access -> bool) : bool :=
   forallb (fun a1 => forallb (fun a2 => forallb (fun x => forallb (fun y =>
-    negb (cc_conflict x y) || negb (ac_wt x && ac_wt y) || ok a1 x a2 y) (cc_acc a2)) (cc_acc a1)) cc_all_aids) cc_all_aids.
+    negb (cc_conflict x y) || (wt && negb (ac_wt x && ac_wt y)) || ok a1 x a2 y) (acc a2)) (acc a1)) cc_all_aids) cc_all_aids.
 
-Lemma cc_table_dec_spec ok : cc_table_dec ok = true ->
-  forall a1 a2 x y, In a1 cc_all_aids -> In a2 cc_all_aids -> In x (cc_acc a1) -> In y (cc_acc a2) ->
+Lemma cc_table_dec_spec acc ok : cc_table_dec acc false ok = true ->
+  forall a1 a2 x y, In a1 cc_all_aids -> In a2 cc_all_aids -> In x (acc a1) -> In y (acc a2) ->
+    cc_conflict x y = true -> ok a1 x a2 y = true.
+Proof.
+  unfold cc_table_dec. intros H a1 a2 x y H1 H2 Hx Hy Hc.
+  rewrite forallb_forall in H. specialize (H a1 H1). rewrite forallb_forall in H. specialize (H a2 H2).
+  rewrite forallb_forall in H. specialize (H x Hx). rewrite forallb_forall in H. specialize (H y Hy).
+  rewrite Hc in H. exact H.
+Qed.
+
+Lemma cc_table_dec_spec_wt acc ok : cc_table_dec acc true ok = true ->
+  forall a1 a2 x y, In a1 cc_all_aids -> In a2 cc_all_aids -> In x (acc a1) -> In y (acc a2) ->
     cc_conflict x y = true -> ac_wt x = true -> ac_wt y = true -> ok a1 x a2 y = true.
 Proof.
   unfold cc_table_dec. intros H a1 a2 x y H1 H2 Hx Hy Hc Hwx Hwy.
@@ -974,16 +988,22 @@ Proof.
   rewrite Hc, Hwx, Hwy in H. exact H.
 Qed.
 
+(* today: every conflicting pair (well-typed or not, List included) is ordered *)
+Lemma conc_lockset_hb_table : cc_table_dec cc_acc false cc_protected_hb = true.
+Proof. vm_compute. reflexivity. Qed.
+
+(* today, pure lockset: only the sort of a listing has no common lock with Rename *)
 Lemma conc_lockset_table :
-  cc_table_dec (fun a1 x a2 y => cc_protected a1 x a2 y || cc_exc_errpath a1 x a2 y || cc_exc_sort a1 x a2 y) = true.
+  cc_table_dec cc_acc false (fun a1 x a2 y => cc_protected a1 x a2 y || cc_exc_sort a1 x a2 y) = true.
 Proof. vm_compute. reflexivity. Qed.
 
-Lemma conc_lockset_hb_table :
-  cc_table_dec (fun a1 x a2 y => cc_protected_hb a1 x a2 y || cc_exc_errpath a1 x a2 y) = true.
+(* before cbef301, well-typed accesses: additionally the error paths *)
+Lemma conc_lockset_hb_table_before_cbef301 :
+  cc_table_dec cc_acc_before_cbef301 true (fun a1 x a2 y => cc_protected_hb a1 x a2 y || cc_exc_errpath a1 x a2 y) = true.
 Proof. vm_compute. reflexivity. Qed.
 
-Lemma cc_all_aids_complete a : a <> AXList -> In a cc_all_aids.
-Proof. destruct a; try destruct k; intros H; try (now contradiction H); vm_compute; tauto. Qed.
+Lemma cc_all_aids_complete a : In a cc_all_aids.
+Proof. destruct a; try destruct k; vm_compute; tauto. Qed.
 
 (* ------------------------------------------------------------------ quiescent consistency: transfer *)
 (* the tree part of the state: the path map and, per node, name / kind / child index *)
